@@ -1,6 +1,7 @@
 import LyModel.Ctx.LemmasFinal
 import LyModel.Ctx.LemmasUsable
 import LyModel.Ctx.LemmasLatest
+import LyModel.Ctx.LemmasAmend
 import LyModel.Ctx.Examples
 /-!
 # C09 — a failed schema operation leaves the context as it was
@@ -343,13 +344,109 @@ theorem implemented_targets_compiled (c : Cfg) (hc : c.compilesTargets = true) :
   obtain ⟨h1, h2, h3, h4⟩ := h c hc
   exact ⟨Quiescent.ofB h1, h2, h3, h4⟩
 
+/-! ### `augmented_by` / `deviated_by` and the compiled content -/
+
+/-- the two arrays of `struct lys_module` of every module, in context order and array order -/
+def Amend (s : Ctx) : List (MKey × List MKey × List MKey) := s.mods.map fun m => (m.key, m.augBy, m.devBy)
+
+/-- between two calls: a reference in `augmented_by` / `deviated_by` names an implemented module of the context, and no module
+    is referenced twice in one array (`lys_array_add_mod_ref`) -/
+structure AmendOk (s : Ctx) : Prop where
+  refs : ∀ m ∈ s.mods, ∀ k ∈ m.augBy ++ m.devBy, ∃ x ∈ s.mods, x.key = k ∧ x.implemented = true
+  nodup : ∀ m ∈ s.mods, m.augBy.Nodup ∧ m.devBy.Nodup
+
+def amendOkB (s : Ctx) : Bool :=
+  s.mods.all fun m => (m.augBy ++ m.devBy).all (fun k => s.mods.any fun x => x.key == k && x.implemented) &&
+    decide m.augBy.Nodup && decide m.devBy.Nodup
+
+theorem AmendOk.ofB {s : Ctx} (h : amendOkB s = true) : AmendOk s := by
+  simp only [amendOkB, List.all_eq_true, Bool.and_eq_true, List.any_eq_true, beq_iff_eq, decide_eq_true_eq] at h
+  exact ⟨fun m hm k hk => (h m hm).1.1 k hk, fun m hm => ⟨(h m hm).1.2, (h m hm).2⟩⟩
+
+/-- **`augmented_by` / `deviated_by` are restored.**  For every context between two calls, every operation (with or without a
+    `features` argument) and every failure point — parsing, imports at any depth, `lys_implement` of the module or of an augment /
+    deviation / leafref target, compilation, the unres checks —: after the failed call EVERY module of the context, implemented
+    or import-only, has exactly the `augmented_by` and `deviated_by` arrays it had, in the same order. -/
+theorem amend_arrays_restored (s : Ctx) (op : Op) (e : Nat) (s' : Ctx) (hq : Quiescent s) (ha : AmendOk s)
+    (hrun : run s op = (.error e, s')) : Amend s' = Amend s := by
+  rcases run_error hrun with hm | hm
+  · simp [Amend, hm]
+  · have hinv : Inv none (restore none s) s := ⟨rfl, hq.keys, hq.flags⟩
+    obtain ⟨k0, hk⟩ := forward_masked op s hinv
+    have hk' : Inv (some k0) (restore (some k0) s) (forward op s).2 := by
+      have : (restore none s).map (maskCore k0) = restore (some k0) s := by
+        simp only [restore, List.map_map]
+        apply List.map_congr_left
+        intro m _
+        exact (restoredCore_mask _ k0 m).symm
+      rw [← this]; exact hk
+    have hab0 : AB (s.mods.map Mod.av) s := by
+      refine ⟨fun m hm _ => ⟨m.av, List.mem_map_of_mem hm, rfl, [], by simp [Mod.av], nofun⟩,
+        fun m hm _ => ⟨m.av, List.mem_map_of_mem hm, rfl, [], by simp [Mod.av], nofun⟩, ha.nodup⟩
+    have hab := presAB_forward op s hab0
+    have hdis : ∀ x ∈ s.mods.map Mod.av, ∀ k ∈ x.2.1 ++ x.2.2, k ∉ (forward op s).2.implementing := by
+      intro x hx k hkx hki
+      obtain ⟨m, hm0, rfl⟩ := List.mem_map.mp hx
+      obtain ⟨x0, hx0, hx0k, hx0i⟩ := ha.refs m hm0 k hkx
+      -- `x0` is implemented in `s`; a module in `implementing` shows as not implemented in `restore`
+      have hres := hk'.restore
+      rw [restore_quiescent s hq.noCreating hq.noImplementing] at hres
+      have hmem : coreM (some k0) x0 ∈ restore (some k0) (forward op s).2 := by
+        rw [hres]; exact List.mem_map_of_mem hx0
+      unfold restore at hmem
+      obtain ⟨m1, hm1, he⟩ := List.mem_map.mp hmem
+      have h1 := congrArg Core.implemented he
+      have h2 := congrArg Core.key he
+      rw [coreM_implemented, hx0i] at h1
+      rw [coreM_key, hx0k] at h2
+      have h3 : (Mod.restoredCore (forward op s).2.implementing (some k0) m1).key = m1.key := rfl
+      rw [h3] at h2
+      have hc : (forward op s).2.implementing.contains m1.key = true := by rw [h2]; simpa using hki
+      simp only [Mod.restoredCore, Bool.and_eq_true, Bool.not_eq_true'] at h1
+      rw [hc] at h1
+      exact absurd h1.2 (by simp)
+    have := revert_av hq.noCreating hq.noImplementing hq.lrefs hq.keys hk' hab hdis
+    simp only [Amend, hm]
+    exact this
+
+/-- non-vacuity: `aaa` augmented by the implemented `ccc`; the module `bbb` that also augments `aaa` fails after it was added to
+    `augmented_by` of `aaa` (the unres stage refuses its default value) -/
+example : let s := (run sA (.parse C none)).2
+    Quiescent s ∧ AmendOk s ∧ rc (run s (.parse Bbad none)).1 = 7 ∧ (Amend s).any (fun x => !x.2.1.isEmpty) = true ∧
+      ((forward (.parse Bbad none) s).2.mods.any fun m => m.augBy.length == 2) = true :=
+  ⟨Quiescent.ofB (by decide +kernel), AmendOk.ofB (by decide +kernel), by decide +kernel, by decide +kernel, by decide +kernel⟩
+
+/-- a module that is refused by the checks of the unres stage (a default value out of range), on its own -/
+def Bunres : ModSrc := { src "bbb" "" with faults := [(.unres, 7)] }
+
+/-- **F380.**  Without `Quiescent` (a pending explicit-compile batch) the compiled content is NOT restored, and not only because the
+    batch is dropped (F131): `aaa` was compiled by an earlier `ly_ctx_compile`; `bbb` and `ccc` (which augments `aaa`) are parsed;
+    the next `ly_ctx_compile` compiles the dependency set of `aaa` — with the augment of `ccc` — successfully, clears its
+    `to_compile` flags, and fails in the dependency set of `bbb`.  `lys_unres_glob_revert` removes `ccc` (its reference disappears
+    from `augmented_by` of `aaa`) but recompiles only flagged modules: `aaa` stays implemented with a compiled tree that contains
+    the nodes of the module that was freed (`lysc_node.module` dangles: heap-use-after-free for every reader). -/
+theorem stale_compiled_after_failed_compile :
+    ∃ (s : Ctx) (e : Nat) (s' : Ctx), run s .compile = (.error e, s') ∧
+      (s'.mods.all fun m => m.src.name != bs "ccc") = true ∧
+      (s'.mods.any fun m => m.implemented && m.augBy.isEmpty && (match m.compiled with
+        | some (_, d) => d.augBy == [bs "ccc"]
+        | none => false)) = true :=
+  let s := runs (ctx0 [A, Bunres, C] true) [.parse A none, .compile, .parse Bunres none, .parse C none]
+  ⟨s, 7, (run s .compile).2, run_eq_error (e := 6) (by decide +kernel), by decide +kernel, by decide +kernel⟩
+
+/-- the compiled content of every module is what compiling it now gives (top-level nodes with their augmenting / deviating
+    modules, enabled features, features of used groupings): the state `lys_compile_depset_all` is to establish -/
+def Fresh (s : Ctx) : Prop := ∀ m ∈ s.mods, ∀ i d, m.compiled = some (i, d) → d = s.descOf m
+
 -- OPEN: compiled_schema_restored_partial —
---   ∀ s op e s', Quiescent s → (every implemented module of s is compiled and its compiled content is up to date:
---     m.compiled = some (i, s.descOf m)) → run s op = (.error e, s') → featArg op = none →
---     s'.mods.map (fun m => m.compiled.map (·.2)) = s.mods.map (fun m => m.compiled.map (·.2))
---   (needs: augmented_by / deviated_by restored — `eraseOne` against `addRef` — and "every module whose compiled module was
---   freed is flagged and in a dependency set when revert recompiles"; the correspondence compares the class of the compiled
---   print of every implemented module after every call instead.)
+--   ∀ s op e s', Quiescent s → AmendOk s → Fresh s → (every implemented module of s is compiled) → run s op = (.error e, s') →
+--     featArg op = none → s'.mods.map (fun m => (m.key, m.compiled.map (·.2))) = s.mods.map (fun m => (m.key, m.compiled.map (·.2)))
+--   Proved here: the INPUTS of the compiled content are restored — cores (`failed_op_restores_partial`: features, imports) and
+--   the two arrays (`amend_arrays_restored`) —, and for failures inside `lys_parse_in` / `lys_parse_load` the compiled modules
+--   themselves are untouched (`data_stays_usable_partial`).  What remains is `Fresh s'`: "every module whose compiled module
+--   was built with a reference that the revert removed is flagged `to_compile` and is in a dependency set when
+--   `lys_unres_glob_revert` recompiles" (`lys_unres_dep_sets_create`); the correspondence compares the structured value
+--   (`:N` field: top-level nodes with augmenting / deviating modules) after every call instead.
 
 /-- what a caller does later: `aaa@2020-01-01` appears in the repository and is loaded, then the correct module `ccc`
     (dateless import + augment of `aaa`) is parsed -/
